@@ -840,6 +840,52 @@ def regression_cases(chk):
                           {"src": f"let r = {expr};", "get": ["r"]})
 
 
+def miri_support(chk, cap_s=600):
+    """SUPPORTING evidence only (DESIGN §3), thorough tier: the interpreter's `unsafe` modules
+    (util/trysort.rs, util/try_heap.rs — the source files themselves, compiled into the dependency-free
+    crate harness/miri_ord) run under Miri on arrays of Rc-managed elements with the comparator failing at
+    every comparison index.  Undefined behaviour, a leak or a failed conservation assertion is a violation
+    (replay = the op announced last); an unavailable Miri, a build problem or the time cap is only recorded."""
+    info = {"role": "supporting evidence only — the decision is the proofs + the correspondence check",
+            "what": "cargo +nightly miri run of harness/miri_ord: try_sort (insertion path, lengths 0-8; merge path, lengths 21 and 24) "
+                    "and TryHeap push/pop/drain (lengths 0-6) over Rc elements, comparator failing (error / violation) at every k"}
+    chk.coverage["supporting"] = info
+    rc, ver = sh(["cargo", "+nightly", "miri", "--version"])
+    if rc != 0:
+        info["status"] = "not run: `cargo +nightly miri` is not available: " + ver.strip()[-200:]
+        return
+    info["miri_version"] = ver.strip().splitlines()[-1]
+    env = dict(os.environ)
+    env.update({"CARGO_NET_OFFLINE": "true", "CARGO_TARGET_DIR": os.path.join(BUILD, "miri"), "XRAY_REPO": REPO,
+                "MIRIFLAGS": "-Zmiri-disable-isolation"})
+    t0 = time.time()
+    try:
+        p = subprocess.run(["cargo", "+nightly", "miri", "run"], cwd=os.path.join(HARNESS_DIR, "miri_ord"), env=env,
+                           stdout=subprocess.PIPE, stderr=subprocess.PIPE, text=True, errors="replace", timeout=cap_s)
+    except subprocess.TimeoutExpired as e:
+        out = e.stdout or ""
+        out = out.decode("utf-8", "replace") if isinstance(out, bytes) else out
+        info["status"] = f"time cap of {cap_s} s reached (machine load); {out.count('OP ')} op sequences had run without a report"
+        return
+    info["wall_s"] = round(time.time() - t0, 1)
+    ops = [l for l in p.stdout.splitlines() if l.startswith("OP ")]
+    info["op_sequences"] = len(ops)
+    done = [l for l in p.stdout.splitlines() if l.startswith("DONE ")]
+    if p.returncode == 0 and done:
+        info["status"] = "ok: no undefined behaviour, no leak, every object conserved (" + done[-1] + ")"
+        chk.count("miri:op-sequences", len(ops))
+        return
+    err = p.stderr[-3000:]
+    last = ops[-1] if ops else "(none)"
+    if "Undefined Behavior" in p.stderr or "memory leaked" in p.stderr or "panicked at" in p.stderr:
+        kind = "ub" if "Undefined Behavior" in p.stderr else ("leak" if "memory leaked" in p.stderr else "conservation")
+        info["status"] = f"{kind} reported"
+        chk.violation(f"miri:{kind}", f"Miri reports {kind} in the unsafe sort/heap code during: {last[:300]} — {err[-600:]}",
+                      {"miri_op": last, "cmd": "cd harness/miri_ord && cargo +nightly miri run", "stderr": err})
+    else:
+        info["status"] = "not run to completion (build or toolchain problem, no verdict): " + err[-400:]
+
+
 def run(chk):
     quick = chk.tier == "quick"
     chk.trusted += [
@@ -859,6 +905,8 @@ def run(chk):
     derive_cases(chk, quick)
     format_cases(chk, quick)
     regression_cases(chk)
+    if not quick:
+        miri_support(chk)
     return chk.finish(rule="sequences of length 0-40 (quick) / 0-200+ (thorough) over 9 key patterns (random, few keys, ascending, strictly descending, "
                            "sawtooth, concatenated runs, plateaus, organ pipe, all equal) sorted by key with the comparator failing at every comparison index k; "
                            "non-trivial = distinct (list, k) where the list has ties and more than 20 elements, or a failure was injected")
